@@ -303,3 +303,49 @@ func uniform(rt *rapid.T, label string, n int) int {
 	h := sha256.Sum256(b[:])
 	return int(binary.BigEndian.Uint64(h[:8]) % uint64(n))
 }
+
+// bufferHistories returns payload-length sequences (one reader/writer
+// lifetime each) laid out around the internal buffers of cipher.go: the CBC
+// cipher's 1024-byte initial packetData and the chacha20-poly1305 cipher's
+// 256-byte initial buf (first packets whose size is within a MAC length of
+// the initial capacity), and the "buffer is exactly as large as the largest
+// packet so far" state of every reader and writer: staircases that exceed the
+// previous maximum by exactly 1..4 cipher blocks (8 and 16 bytes) or by a
+// MAC/tag size, with shrink-then-grow steps in between, also from around the
+// 32 KiB channel packet size.
+func bufferHistories() (hist [][]int, names []string) {
+	thorough := ev.Thorough()
+	for n := 930; n <= 1030; n++ {
+		hist, names = append(hist, []int{n}), append(names, "first-packet-around-1024")
+	}
+	for n := 200; n <= 262; n++ {
+		hist, names = append(hist, []int{n}), append(names, "first-packet-around-256")
+	}
+	for _, b := range []int{8, 16} {
+		for _, s0 := range []int{1, 180, 1100, 32700} {
+			if s0 > 30000 && b == 8 && !thorough {
+				continue // quick: one staircase around the 32 KiB channel packet size
+			}
+			cur := s0
+			h := []int{cur}
+			for i := 0; i < 16; i++ {
+				cur += (1 + i%4) * b
+				if i%3 == 2 {
+					h = append(h, 5) // shrink, then grow past the old maximum
+				}
+				h = append(h, cur)
+			}
+			hist, names = append(hist, h), append(names, fmt.Sprintf("staircase-%d-byte-blocks", b))
+		}
+	}
+	for _, s0 := range []int{60, 1100} {
+		cur := s0
+		h := []int{cur}
+		for _, d := range []int{1, 3, 7, 12, 16, 20, 32, 64, 12, 20, 1, 64, 32} {
+			cur += d
+			h = append(h, 3, cur)
+		}
+		hist, names = append(hist, h), append(names, "staircase-mac-size-steps")
+	}
+	return
+}
